@@ -4,7 +4,7 @@
    The model (coq/B/Blocking.v) is the blocking structure of the write path, flush, compaction,
    readTs, value-log GC token, DropAll/DropPrefix and Close as a labelled transition system
    `step strict c s l`; strict = false is the code as written, strict = true removes the
-   SCHEDULES (not code) named (h1), (h2) in Blocking.v.  `pending s` = some public call has
+   SCHEDULES (not code) named (h1), (h2), (h3) in Blocking.v.  `pending s` = some public call has
    begun and not returned; `work l` = l is not the arrival of a new call nor the optional
    start of a compaction that does not touch level 0.
 
@@ -69,6 +69,21 @@ Theorem C38_newtxn_race_refuted :
   (forall ls s', exec false cfgW BlockingRefuteProofs.st_newtxn_hang ls = Some s' -> 1 <= rdwait s' /\ pending s' = true).
 Proof. exact BlockingRefuteProofs.newtxn_race_hang. Qed.
 Print Assumptions C38_newtxn_race_refuted.
+
+(* DropPrefix racing a commit (no Close involved): the commit passed its blockWrites check before
+   DropPrefix blocked writes and sends after prepareToDrop's drain; DropPrefix then waits, in the
+   View of filterPrefixesToDrop, for that commit's timestamp, while the commit waits for the
+   writer that DropPrefix restarts only on return *)
+Theorem C38_drop_race_refuted :
+  reach false cfgW BlockingRefuteProofs.st_drop_hang /\ clo BlockingRefuteProofs.st_drop_hang = CNot /\
+  crashed BlockingRefuteProofs.st_drop_hang = false /\
+  pending BlockingRefuteProofs.st_drop_hang = true /\ drp BlockingRefuteProofs.st_drop_hang = DView /\
+  o_hung_commit (observe BlockingRefuteProofs.st_drop_hang) = 1 /\
+  (forall l, work l = true -> step false cfgW BlockingRefuteProofs.st_drop_hang l = None) /\
+  (forall ls s', exec false cfgW BlockingRefuteProofs.st_drop_hang ls = Some s' ->
+     drp s' = DView /\ 1 <= wch s' /\ pending s' = true).
+Proof. exact BlockingRefuteProofs.drop_race_hang. Qed.
+Print Assumptions C38_drop_race_refuted.
 
 (* progress: mu strictly decreases along every work transition; so every work-only path from a
    reachable state has at most mu steps, one of them ends with no call pending, and the
